@@ -40,6 +40,16 @@ if [ ! -f "$OD/.stamp" ] || [ "$(cat "$OD/.stamp")" != "$srchash" ]; then
 fi
 
 # ---- harness objects
+# they include json-c's public headers (macros and inline functions: printbuf_memappend_fast, json_object_object_foreach,
+# lh_entry accessors ...): a change of any header of the tree under test invalidates them (content hash, not mtime, because
+# the checks may be pointed at different trees one after the other)
+HVD=$B/h-$( [ "$variant" = thrassert ] && echo thr || echo "$variant")
+hdrhash=$( (cd "$REPO" && cat *.h 2>/dev/null; cat "$B/$CFG/config.h" "$B/$CFG/json_config.h" "$B/$CFG/json.h") | sha256sum | cut -d' ' -f1)
+if [ -d "$HVD" ] && [ "$(cat "$HVD/.hdrhash" 2>/dev/null)" != "$hdrhash" ]; then
+	rm -f "$HVD"/*.o
+fi
+mkdir -p "$HVD"
+echo "$hdrhash" >"$HVD/.hdrhash"
 make -s -C "$V" -j"$JOBS" VDIR="$V" VARIANT="$variant" HV="$( [ "$variant" = thrassert ] && echo thr || echo "$variant")" \
 	CXX="$CXX" CC="$CC" HFLAGS="$HFLAGS" CFGDIR="$B/$CFG" REPO="$REPO" harness
 
